@@ -224,6 +224,57 @@ def pairs(ck, n):
             ck.disagreement("compare_gaf differs from the model", {"a": a, "b": b, "impl": im, "model": r["model"]})
 
 
+def straddle_contig_end(ck, runner, gfa_text, lines, bg_in, outind):
+    """pad one early record so that, in the sorted --bgzip output, the LAST record of the first contig starts in one BGZF block
+    and ends in the next (or ends exactly at a block end): the one place where an offset computed by byte arithmetic from a
+    neighbouring record's virtual offset is wrong.  The sorted order is learnt from a run with plain output (padding a comment
+    field changes no sort key)."""
+    probe = runner.run(gfa_text, lines, bg_in, 0, outind)
+    if probe.get("outcome") != "ok" or len(probe["lines"]) != len(lines):
+        return lines
+    out = probe["lines"]
+    sn = [l.split("\t")[-2] for l in out]
+    contigs = [x for x in sn if x != "sn:Z:unknown"]
+    if not contigs:
+        return lines
+    first = contigs[0]
+    j = max(i for i, x in enumerate(sn) if x == first)
+    if j == 0:
+        return lines
+    starts, pos = [], 0
+    for l in out:
+        starts.append(pos)
+        pos += len(l.encode()) + 1
+    B = (starts[j] // 65280 + 1) * 65280
+    if ck.rng.random() < 0.5:
+        delta = B - starts[j] - 1                     # starts on the last byte of a block: straddles
+        kind = "straddles"
+    else:
+        delta = B - (starts[j] + len(out[j].encode()) + 1)          # ends exactly at the end of a block
+        if delta < 0:
+            delta += 65280
+        kind = "ends-at-block-end"
+    name0 = out[0].split("\t")[0]
+    res = []
+    done = False
+    for l in lines:
+        f = l.split("\t")
+        if not done and f[0] == name0:
+            for k, x in enumerate(f):
+                if x.startswith("zz:Z:"):
+                    f[k] = x + "q" * delta
+                    done = True
+                    break
+            else:
+                f.append("zq:Z:" + "q" * max(0, delta - 6))
+                done = delta >= 6
+            l = "\t".join(f)
+        res.append(l)
+    if done:
+        ck.count("contig-end-%s-bgzf-block" % kind)
+    return res if done else lines
+
+
 def files(ck, prop, tmp, n):
     rng = ck.rng
     runner = SortRun(tmp)
@@ -260,6 +311,14 @@ def files(ck, prop, tmp, n):
             ck.count("big-file")
         outind = "custom.idx" if rng.random() < 0.2 else None
         gfa_text = g.text(with_seq=False)
+        if rng.random() < 0.1:
+            # a GAF that was sorted before (pipelines: sort per sample, merge, sort again): the records already end in bo / sn / iv
+            # fields, some followed by a further field; sort appends its three fields after whatever is there
+            lines = [l + "\tbo:i:%d\tsn:Z:%s\tiv:i:%d" % (rng.randint(0, 9), rng.choice(["chr1", "unknown"]), rng.randint(0, 1))
+                     + ("\tRG:Z:sample%d" % rng.randint(1, 3) if rng.random() < 0.5 else "") for l in lines]
+            ck.count("already-sorted-input")
+        if big and bg_out and len(lines) > 50:
+            lines = straddle_contig_end(ck, runner, gfa_text, lines, bg_in, outind)
         obs = runner.run(gfa_text, lines, bg_in, bg_out, outind)
         recs = []
         for l in lines:
